@@ -49,6 +49,17 @@ CHECKS.update({
         "offset 0..len of every object's encoding is fed to the real deserializer (must be Err, never a panic or an object).", ref="DESIGN.md 4/C15",
    note="Trusted: TLC, spec/SerializeFaults.tla, the scripted writer / truncating reader in harness/src/ser.rs. Fault model = short writes and one failing call; readers that return short reads are not modelled."),
 })
+CHECKS.update({
+ "C13": dict(cat="model_checking", tech="TLC enumerates the parameter universe of spec/Params.tla (Build action, design invariant PrefixClosed); every object is built through the real builder/HeContext::new and the recorded outcome validated by TLC against Pre, the chain rules and the constant definitions (trace validation)",
+   text="Exhaustive small-parameter universe (quick ~23k, thorough ~10^6 objects: schemes x degrees incl. 0/3/non-power-of-two x moduli lists incl. composites, duplicates, non-NTT x plain moduli x security level x expansion x special-prime flag). "
+        "TLC checks for every object: construction does not panic; parameters_set => documented preconditions on every level, chain = prefix moduli sets with indices decreasing to 0 and consistent prev/next links, "
+        "per-level constants equal their definitions, ids reproducible (rebuild and via serialized parameters) and collision-free; otherwise a specific error. Generated moduli: distinct primes of exact size = 1 mod 2N.",
+   ref="DESIGN.md 4/C13", note="Trusted: TLC, spec/Params.tla, the projection in harness/src/c13.rs. Accepted contexts with 60-bit moduli do not fit native TLC integers and are outside this check (C01-C07 exercise them); SHA-256 collision freedom beyond the universe is assumed."),
+ "C17": dict(cat="model_checking", tech="TLC model-checks spec/KeyCache.tla and spec/GaloisCache.tla (safety + liveness, deviation refuted); every interleaving is replayed on real threads through a deterministic scheduler on the verif-hooks yield points; free runs validated against spec/Trace_Cache.tla",
+   text="All interleavings of the lock phases of 2-3 threads (thorough: all requested-power combinations, 4 threads sampled) sharing one Decryptor / KeyGenerator / Galois tool: ~59k forced schedules (quick). After every step the yield site and the cache "
+        "state reported under the lock must equal the model's, no thread may block, and every thread's result must equal the sequential one. Plus 150/3000 OS-scheduled runs whose lock-ordered events TLC validates (monotone cache, use sees enough).",
+   ref="DESIGN.md 4/C17", note="Trusted: TLC, the two cache specs, harness/src/sched.rs. Lock phases are modelled as atomic (hooks yield only where no lock is held); races inside unsafe blocks and Arc::as_ptr().cast_mut() during context construction are below this granularity."),
+})
 NA_REASON = "check not built yet in this round (work in progress; see DESIGN.md section 8)"
 EXTRA = os.path.join(ROOT, "lib", "manifest_extra.json")
 
